@@ -186,7 +186,7 @@ func (in *Interp) checkOpaque(s str) {
 }
 
 func (in *Interp) intv(w uint8, v int64) T { return in.tb.BV(w, uint64(v)) }
-func (in *Interp) int64v(v int64) T       { return in.tb.BV(64, uint64(v)) }
+func (in *Interp) int64v(v int64) T        { return in.tb.BV(64, uint64(v)) }
 
 // asConstInt returns the signed value of a constant int term.
 func asConstInt(v value) (int64, bool) {
